@@ -23,7 +23,7 @@ Ctx2Recs(u) == LET PK == ndJsonDeserialize(IOEnv.VH_PICKS)
                    ok == SelectSeq([q \in 1..Len(PK) |-> q], LAMBDA q : CtxOK(E2(q)) /\ Distinct(E2(q)))
                IN [q \in 1..Len(ok) |-> [id |-> q, ast |-> Renumber(E2(ok[q])), ng |-> Len(GroupOrder(E2(ok[q]))), pick |-> <<PK[ok[q]].i, PK[ok[q]].j, PK[ok[q]].f>>]]
 Sig == CASE IOEnv.VH_SIG = "sig6" -> SIG6
-         [] IOEnv.VH_SIG = "case4" -> <<"a", "A", "b", "B">>
+         [] IOEnv.VH_SIG = "case4" -> <<"a", "A", "b", "B", "E", "Z">>      \* (the name is historical: two ASCII case pairs and one non-ASCII pair)
          [] IOEnv.VH_SIG = "wide" -> <<"a", "E", "K", "T", "Q", "N">>
          [] IOEnv.VH_SIG = "ab" -> <<"a", "b">>
 TextRecs(u) == LET S == TextsUpTo(Sig, NN) IN [q \in 1..Len(S) |-> [t |-> S[q]]]
